@@ -92,7 +92,8 @@ def infer (req : Json) : Except String Json := do
     | "Scaler" => pure (inferScaler a b x)
     | "TreeEnsembleClassifier" => pure (inferTreeEnsembleClassifier a b c x)
     | "TreeEnsembleRegressor" => pure (inferTreeEnsembleRegressor a x)
-    | "Compress" => pure (inferCompress (optInt req "a") x y)
+    | "Compress" => pure (if (req.getObjValAs? Bool "vec").toOption.getD false
+        then inferCompressFixed (optInt req "a") x y else inferCompress (optInt req "a") x y)
     | o => throw s!"unknown op {o}"
   pure (resToJson r)
 
@@ -131,12 +132,12 @@ def bodyOf (kind : String) (conds : List Bool) : Body := fun i vs =>
 
 def looprun (req : Json) : Except String Json := do
   let kind ← req.getObjValAs? String "body"
-  let m ← req.getObjValAs? Nat "M"
-  let c0 ← req.getObjValAs? Bool "c0"
+  let m := (req.getObjValAs? Nat "M").toOption          -- absent / null: trip count omitted
+  let c0 := (req.getObjValAs? Bool "c0").toOption       -- absent / null: cond omitted
   let conds ← req.getObjValAs? (List Bool) "conds"
   let arr ← req.getObjValAs? (Array Json) "v0"
   let v0 ← arr.toList.mapM valOfJson
-  match loopRun (bodyOf kind conds) m 0 c0 v0 with
+  match loopRunOpt (bodyOf kind conds) m c0 16 v0 with
   | none => pure (Json.mkObj [("run", .null)])
   | some (fin, scs) =>
     let ncols := (scs.head?.map List.length).getD 0
